@@ -50,6 +50,20 @@ Proof.
   destruct l; [now rewrite !skipn_nil|]. cbn [skipn plus]. apply IH.
 Qed.
 
+Lemma firstn_add {A} (n1 n2 : nat) (l : list A) : firstn (n1 + n2) l = firstn n1 l ++ firstn n2 (skipn n1 l).
+Proof.
+  revert l; induction n1 as [|n1 IH]; intros l; [reflexivity|].
+  destruct l; [now rewrite !firstn_nil|]. cbn [plus firstn skipn app]. now rewrite IH.
+Qed.
+
+Lemma slice_slice_app (l : bytes) p n1 n2 : 0 <= p -> 0 <= n1 -> 0 <= n2 ->
+  slice l p n1 ++ slice l (p + n1) n2 = slice l p (n1 + n2).
+Proof.
+  intros Hp H1 H2. unfold slice.
+  replace (Z.to_nat (n1 + n2)) with (Z.to_nat n1 + Z.to_nat n2)%nat by lia.
+  rewrite firstn_add, skipn_skipn'. do 3 f_equal. lia.
+Qed.
+
 (** ** writes that tile [boff, boff + |content|) *)
 Fixpoint tiles (boff : Z) (ws : list (Z * bytes)) (content : bytes) : Prop :=
   match ws with
